@@ -1335,6 +1335,201 @@ static void case_fuzzy(vf_rng *r, uint64_t q, int exact)
     fz_free(&f);
 }
 
+/* ------------------------------------------------------------------ fuzzy PID: crisp singleton sets, input exactly on the centre
+ * (clause added for seeded change C12-I: the firing test of a_pid_fuzzy_mf rewritten so that an unordered degree counts as fired)
+ *
+ * mf.h puts no condition on the width of a gaussian or of a generalised bell, so "any finite ... rule base" contains tables in which one
+ * set is a crisp singleton: A_MF_GAUSS with sigma = 0 or A_MF_GBELL with a = 0 (b > 0).  Away from its centre such a set has degree
+ * exactly 0; AT the centre the library's formula is 0/0.  The property does not care what degree that is (C13 excludes zero widths from
+ * the value clauses of the membership functions, and neither degrees nor gain VALUES are judged here) - it says that after every step the
+ * output lies within the limits and all controller state is finite, and that zeroing restores the fresh behaviour.  Those clauses are
+ * judged on histories on a dyadic grid (set, fdb multiples of 1, 1/2 or 1/4, |.| <= 64, so e = set - fdb and ec = e - e(k-1) are exact) that
+ * are steered so that e, ec or both land exactly on the singleton's centre on roughly every third step, mixed with ordinary steps, for
+ * all three entry points and all seven operators, the singleton planted among ordinary overlapping sets of all 13 families.
+ * Twin clause: a second controller whose tables are the same except that the singleton is replaced by a shoulder set far outside the
+ * input range (it never fires) runs alongside on the same history; on the steps where an input is exactly on the centre the scheduled
+ * gains, the integrator and the output must equal the twin's bitwise: whatever degree the library assigns to the singleton there, a set
+ * whose degree is not a number > 0 cannot be given weight in the mean of centres (observed on the unchanged library for every operator:
+ * the degree is not counted as fired, all seeds). */
+static void part_plant(part_t *P, unsigned at, int type, double zero, double b, double c)
+{
+    mfset_t *m = &P->s[at];
+    memset(m, 0, sizeof(*m));
+    m->type = type;
+    if (type == A_MF_GAUSS) { m->p[0] = zero; m->p[1] = c; }
+    else if (type == A_MF_GBELL) { m->p[0] = zero; m->p[1] = b; m->p[2] = c; }
+    else { m->p[0] = 0x1p40; m->p[1] = 0x1p40 + 1; } /* A_MF_LINS far to the right of every input: degree exactly 0 */
+    part_free(P);
+    part_finish(P);
+}
+
+static void case_fuzzy_singleton(vf_rng *r, uint64_t q)
+{
+    fz_t f, t; /* t: the twin without the singleton; shares consequents, base gains, operator, order and scratch size with f */
+    unsigned const L = 4 + (unsigned)vf_below(r, 120);
+    int const where = 1 + (int)vf_below(r, 3); /* 1: e table, 2: ec table, 3: both */
+    double const grid = ldexp(1.0, -(int)vf_below(r, 3)), R = (double)vf_range(r, 4, 64);
+    int const ls = (int)vf_below(r, LS_N);
+    unsigned const psw = (unsigned)vf_range(r, 2, 20);
+    double cen[2] = {0, 0}, d, set = 0, fdb = 0;
+    lim_t lim;
+    a_pid_fuzzy *ztwin = NULL;
+    void *ztwin_bf = NULL;
+    int mode = (int)vf_below(r, 3), joint_next = 0, was_on = 0;
+    unsigned k, since_zero = 0, non = 0, nboth = 0, i;
+    memset(&f, 0, sizeof(f));
+    f.opr = (unsigned)(q % 7);
+    f.n = 2 + (unsigned)(q / 7 % 6);
+    d = 2 * R / (double)f.n * vf_uniform(r, 0.5, 1.5);
+    part_real(r, &f.pe, f.n, d);
+    part_real(r, &f.pec, f.n, d * vf_uniform(r, 0.5, 2));
+    t = f;
+    t.pe.flat = t.pec.flat = NULL;
+    part_finish(&t.pe);
+    part_finish(&t.pec);
+    for (int w = 0; w < 2; ++w)
+    {
+        part_t *P = w ? &f.pec : &f.pe, *T = w ? &t.pec : &t.pe;
+        unsigned const at = (unsigned)vf_below(r, f.n);
+        int const type = vf_chance(r, 1, 2) ? A_MF_GAUSS : A_MF_GBELL;
+        if (!(where >> w & 1)) { continue; }
+        cen[w] = vf_chance(r, 1, 4) ? 0.0 : rint(vf_uniform(r, -R, R) / grid) * grid;
+        part_plant(P, at, type, vf_chance(r, 1, 4) ? -0.0 : 0.0, vf_uniform(r, 0.5, 4), cen[w]);
+        part_plant(T, at, A_MF_LINS, 0, 0, 0);
+    }
+    f.base[0] = t.base[0] = vf_sign(r) * vf_logu(r, -4, 5.5);
+    f.base[1] = t.base[1] = vf_chance(r, 1, 6) ? 0.0 : vf_logu(r, -4, 5.5);
+    f.base[2] = t.base[2] = vf_chance(r, 1, 4) ? 0.0 : vf_sign(r) * vf_logu(r, -4, 5.5);
+    for (int gi = 0; gi < 3; ++gi)
+    {
+        if (vf_chance(r, 1, 8)) { continue; }
+        f.mk[gi] = t.mk[gi] = (double *)xmalloc(f.n * f.n * sizeof(double));
+        for (i = 0; i < f.n * f.n; ++i)
+        {
+            double const m = vf_logu(r, -4, 5.5);
+            f.mk[gi][i] = gi == 1 ? (vf_chance(r, 1, 2) ? m : -vf_unit(r) * f.base[1] / 2) : vf_sign(r) * m; /* effective ki >= 0 */
+        }
+    }
+    f.nfuzz = t.nfuzz = f.pe.overlap > f.pec.overlap ? f.pe.overlap : f.pec.overlap; /* the singleton counts as a set that can be active */
+    gen_limits(r, ls, 0, R, &lim);
+    vf_log("a_pid_fuzzy, crisp singleton set in the %s table%s (centre e=%a ec=%a), inputs on the grid %a within +-%a: operator %u (%s), order %u, scratch = malloc(A_PID_FUZZY_BFUZZ(%u)), "
+           "base kp=%a ki=%a kd=%a, tables kp:%s ki:%s kd:%s, summax=%a summin=%a outmax=%a outmin=%a (limits: %s), %u steps",
+           where == 1 ? "e" : where == 2 ? "ec" : "e and ec", where == 3 ? "s" : "", cen[0], cen[1], grid, R, f.opr, OPR_NAME[f.opr], f.n, f.nfuzz, f.base[0], f.base[1], f.base[2],
+           f.mk[0] ? "yes" : "NULL", f.mk[1] ? "yes" : "NULL", f.mk[2] ? "yes" : "NULL", lim.summax, lim.summin, lim.outmax, lim.outmin, LS_NAME[ls], L);
+    part_log("e", &f.pe);
+    part_log("ec", &f.pec);
+    part_log("twin e", &t.pe);
+    part_log("twin ec", &t.pec);
+    f.c = fz_ctx_new(&f, &lim, &f.bfuzz);
+    t.c = fz_ctx_new(&t, &lim, &t.bfuzz);
+    judge_zeroed(CTL_FUZZY, &f.c->pid, "a_pid_fuzzy_init on a garbage-filled struct");
+    VF_COUNT("fuzzy-singleton-histories");
+    log_header_done();
+    for (k = 0; k < L; ++k)
+    {
+        double ret, rt, e, ec, target = NAN;
+        a_pid before;
+        fzcfg cfg0;
+        qstep o;
+        qst p;
+        int on_e, on_ec;
+        if (since_zero > 0 && vf_below(r, was_on ? 10 : 60) == 0)
+        {
+            /* zeroing (preferably right after a step on the centre) restores the fresh behaviour: fresh twin with the SAME tables */
+            vf_log("k=%u a_pid_fuzzy_zero (both controllers) + fresh twin with the singleton table", k);
+            a_pid_fuzzy_zero(f.c);
+            a_pid_fuzzy_zero(t.c);
+            judge_zeroed(CTL_FUZZY, &f.c->pid, "a_pid_fuzzy_zero");
+            free(ztwin);
+            free(ztwin_bf);
+            ztwin = fz_ctx_new(&f, &lim, &ztwin_bf);
+            since_zero = 0;
+            VF_COUNT("fuzzy-singleton-zero-mid-history");
+        }
+        mode = next_mode(r, mode, psw, 7);
+        /* steering: e onto its centre, ec onto its centre, or (two steps) both at once; otherwise a random grid point */
+        if (vf_chance(r, 1, 2)) { fdb = rint(vf_uniform(r, -R, R) / grid) * grid; }
+        if (joint_next) { target = cen[0]; joint_next = 0; }
+        else
+        {
+            switch (vf_below(r, 8))
+            {
+            case 0: case 1: if (where & 1) { target = cen[0]; } break;
+            case 2: case 3: if (where & 2) { target = f.c->pid.err + cen[1]; } break;
+            case 4: if (where == 3) { target = cen[0] - cen[1]; joint_next = 1; } break;
+            default: break;
+            }
+        }
+        if (isfinite(target) && fabs(target) <= 4 * R) { set = fdb + target; }
+        else { set = rint(vf_uniform(r, -R, R) / grid) * grid; joint_next = 0; }
+        before = f.c->pid;
+        cfg0 = fzcfg_of(f.c);
+        e = set - fdb;
+        ec = e - before.err;
+        on_e = (where & 1) && e == cen[0];
+        on_ec = (where & 2) && ec == cen[1];
+        log_step(mode == M_RUN ? "pid_fuzzy_run" : mode == M_POS ? "pid_fuzzy_pos" : "pid_fuzzy_inc", k, set, fdb);
+        ret = call_fuzzy(f.c, mode, set, fdb);
+        rt = call_fuzzy(t.c, mode, set, fdb);
+        vf.evals += 2;
+        ++since_zero;
+        was_on = on_e || on_ec;
+        if (was_on) { ++non; VF_COUNT("fuzzy-singleton-input-on-centre"); }
+        if (on_e && on_ec) { ++nboth; VF_COUNT("seen-fuzzy-singleton-e-and-ec-on-centre"); }
+        if (!judge_common(CTL_FUZZY, mode, k, &before, &f.c->pid, ret, set, fdb) || !isfinite(f.c->kp + f.c->ki + f.c->kd))
+        {
+            char b1[512], b2[512];
+            if (!was_on) { fz_report_nonfinite(&f, f.c, mode, k, &before, set, fdb); break; }
+            vf_viol("pid_fuzzy/state-not-finite/input-on-centre-of-crisp-singleton-set",
+                    "step %u a_pid_fuzzy_%s(set=%a, fdb=%a): e=%a ec=%a, operator %s, order %u; the %s table holds a zero-width gauss/gbell set centred exactly there (finite parameters, "
+                    "finite inputs); state before %s, after %s (base gains %a %a %a)",
+                    k, MODE_NAME[mode], set, fdb, e, ec, OPR_NAME[f.opr], f.n, on_e && on_ec ? "e and the ec" : on_e ? "e" : "ec", fmt_pid(b1, sizeof b1, &before),
+                    fmt_pid(b2, sizeof b2, &f.c->pid), f.c->kp, f.c->ki, f.c->kd);
+            break;
+        }
+        judge_fzcfg(k, &cfg0, f.c);
+        p = qst_of(&before);
+        o = ref_pid(&p, mode, f.c->pid.kp, f.c->pid.ki, f.c->pid.kd, &lim, set, fdb);
+        judge_cached(CTL_FUZZY, mode, k, &before, &f.c->pid, &o.s, set, fdb);
+        judge_integrator(CTL_FUZZY, mode, k, &before, &f.c->pid, set, fdb);
+        if (was_on)
+        {
+            a_pid const *a = &f.c->pid, *b = &t.c->pid;
+            VF_COUNT("fuzzy-singleton-on-centre-eq-twin-without-the-set");
+            if (memcmp(&ret, &rt, sizeof(double)) || memcmp(&a->kp, &b->kp, sizeof(double)) || memcmp(&a->ki, &b->ki, sizeof(double)) || memcmp(&a->kd, &b->kd, sizeof(double)) ||
+                memcmp(&a->sum, &b->sum, sizeof(double)) || memcmp(&a->out, &b->out, sizeof(double)))
+            {
+                char b1[512], b2[512], b3[512];
+                vf_viol("pid_fuzzy/crisp-singleton-set-on-centre/differs-from-twin-without-the-set",
+                        "step %u a_pid_fuzzy_%s(set=%a, fdb=%a): e=%a ec=%a exactly on the centre of the zero-width set of the %s table, operator %s, order %u: returned %a state %s; the twin "
+                        "whose table holds a never-firing shoulder set in its place returned %a state %s; before %s",
+                        k, MODE_NAME[mode], set, fdb, e, ec, on_e && on_ec ? "e and the ec" : on_e ? "e" : "ec", OPR_NAME[f.opr], f.n, ret, fmt_pid(b1, sizeof b1, a), rt,
+                        fmt_pid(b2, sizeof b2, b), fmt_pid(b3, sizeof b3, &before));
+            }
+        }
+        if (ztwin)
+        {
+            double rz = call_fuzzy(ztwin, mode, set, fdb);
+            judge_twin(CTL_FUZZY, mode, since_zero, &f.c->pid, ret, &ztwin->pid, rz);
+        }
+        cell(CTL_FUZZY, mode, f.opr, f.n, &f.c->pid, mode == M_POS);
+        if (vf.case_viol) { break; }
+    }
+    if (vf_want_sample() && L > 40 && non > 10 && !vf.case_viol)
+    {
+        vf_sample("a_pid_fuzzy with a zero-width gauss/gbell set in the %s table%s: operator %s, order %u, %u steps on the grid %g, %u of them with the input exactly on the set's centre (%u "
+                  "with e and ec at once): output within limits and state finite after every step, gains/integrator/output bitwise equal to the twin without the set on those steps",
+                  where == 1 ? "e" : where == 2 ? "ec" : "e and ec", where == 3 ? "s" : "", OPR_NAME[f.opr], f.n, L, grid, non, nboth);
+    }
+    free(ztwin);
+    free(ztwin_bf);
+    free(t.c);
+    free(t.bfuzz);
+    part_free(&t.pe);
+    part_free(&t.pec);
+    fz_free(&f);
+}
+
 /* ------------------------------------------------------------------ single-neuron PID */
 typedef struct { double k, eta[3], w[3]; } ncfg_t;
 static a_pid_neuro *neuro_new(ncfg_t const *n, lim_t const *l)
@@ -1561,13 +1756,21 @@ static void case_neuro(vf_rng *r, int exact)
 }
 
 /* ------------------------------------------------------------------ plan */
-static uint64_t vf_ncases(int tier) { return tier ? 1600000 : 40000; }
+/* the periodic plan of 20 slots, followed by a block of crisp-singleton fuzzy histories (1/80 of the plan, <= 123 steps each; appended so
+   that the case numbers of the periodic plan are unchanged) */
+static uint64_t plan_periodic;
+static uint64_t vf_ncases(int tier)
+{
+    plan_periodic = tier ? 1600000 : 40000;
+    return plan_periodic + plan_periodic / 80;
+}
 
 static void vf_case(uint64_t c, vf_rng *r)
 {
     unsigned const slot = (unsigned)(c % 20);
     uint64_t const blk = c / 20;
-    if (slot < 6) { case_pid(r, 1); }
+    if (c >= plan_periodic) { case_fuzzy_singleton(r, c - plan_periodic); }
+    else if (slot < 6) { case_pid(r, 1); }
     else if (slot < 8) { case_pid_equiv(r); }
     else if (slot < 11) { case_pid(r, 0); }
     else if (slot < 15) { case_fuzzy(r, blk * 4 + (slot - 11), 1); }
